@@ -43,7 +43,7 @@ def run_one(name, patch, ids):
                             text=True)
         if ap.returncode != 0:
             return {"name": name, "applies": False, "detected_by": [], "checked": ids}
-        env = dict(os.environ, ANYIO_REPO=d)
+        env = dict(os.environ, ANYIO_REPO=d, VERIF_REPLAY_DIR=os.path.join(d, "_replays"))
         hit = []
         errs = []
         for pid in ids:
